@@ -260,12 +260,20 @@ pub fn check(case: &ThreadCase) -> Verdict {
             .enumerate()
             .map(|(i, voter)| scope.spawn(move || party_thread(shared, case, i, voter)))
             .collect();
+        let mut panicked = false;
         for (i, h) in handles.into_iter().enumerate() {
-            let rep = h.join().expect("voter thread panicked");
-            reports.lock().unwrap()[i] = Some(rep);
+            // a panic in the code under test must not hang the receiver thread
+            match h.join() {
+                Ok(rep) => reports.lock().unwrap()[i] = Some(rep),
+                Err(_) => panicked = true,
+            }
         }
         shared.voters_done.store(true, Ordering::SeqCst);
-        rxh.join().expect("receiver thread panicked")
+        let r = rxh.join();
+        if panicked || r.is_err() {
+            panic!("a voter or receiver thread panicked inside the coordinator (message on stderr)");
+        }
+        r.unwrap()
     });
     // Single-threaded from here on.
     let mut reports: Vec<PartyReport> = reports.into_inner().unwrap().into_iter().map(|r| r.unwrap()).collect();
